@@ -62,6 +62,11 @@ def run(ctx):
     for q_ in ("Hypergraph.get_edges", "Hypergraph.get_weights"):
         with res.guard(f"E-PURE of {q_}"):
             check_pure(ctx, eff, res, q_, roots=("self",))
+    # the degree matrices are read off the incidence lists: a rollback that restores a one-level copy of them leaves stale ids
+    with res.guard("E-CHECKPOINT of Hypergraph"):
+        from .. import rules_container as RC_
+
+        RC_.check_shallow_checkpoint(ctx, res, "Hypergraph")
     with res.guard("E-PURE of linalg.binary_incidence_matrix"):
         bi = ctx.require("linalg.binary_incidence_matrix")
         check_pure(ctx, eff, res, "linalg.binary_incidence_matrix", roots=(bi.params[0].arg,))
